@@ -16,21 +16,21 @@ import (
 
 type writeSite struct {
 	call   ssa.Instruction
-	method string        // WriteString / WriteByte / WriteRune
-	sb     ssa.Value     // the builder
-	format string        // constant text or Sprintf format ("" when neither)
-	isFmt  bool          // argument is fmt.Sprintf(format, args...)
-	args   []ssa.Value   // Sprintf operands (unwrapped from interface conversion)
-	arg    ssa.Value     // the raw argument
-	konst  bool          // argument is a constant
-	argT   []string      // operand terms in the namespace of the analysed function
-	cond   dnf           // reaching condition of the write in that namespace
-	via    *ssa.Function // non-nil: the write is performed by this helper, called at `call`
-	depth  int           // number of helper calls between the analysed function and the write
-	inner  token.Pos     // position of the write itself (== call.Pos() when depth is 0)
-	origin *ssa.Function // the function containing the write itself
-	alt    int           // >0: the k-th alternative of a merged operand (splitPhiOperand)
-	origT  []string      // operand terms before any operand was split into alternatives
+	method string             // WriteString / WriteByte / WriteRune
+	sb     ssa.Value          // the builder
+	format string             // constant text or Sprintf format ("" when neither)
+	isFmt  bool               // argument is fmt.Sprintf(format, args...)
+	args   []ssa.Value        // Sprintf operands (unwrapped from interface conversion)
+	arg    ssa.Value          // the raw argument
+	konst  bool               // argument is a constant
+	argT   []string           // operand terms in the namespace of the analysed function
+	cond   dnf                // reaching condition of the write in that namespace
+	via    *ssa.Function      // non-nil: the write is performed by this helper, called at `call`
+	depth  int                // number of helper calls between the analysed function and the write
+	inner  token.Pos          // position of the write itself (== call.Pos() when depth is 0)
+	origin *ssa.Function      // the function containing the write itself
+	alt    int                // >0: the k-th alternative of a merged operand (splitPhiOperand)
+	origT  []string           // operand terms before any operand was split into alternatives
 	done   map[ssa.Value]bool // operands already resolved into an alternative (not split again)
 }
 
